@@ -478,6 +478,9 @@ func opPkt(kind, mode string, extra int, foreign, data []byte) string {
 	}
 	// C05 oracle: the packet's leading layers = the decoders called by hand on fresh builders
 	_, pk := protect(func() string {
+		if mode == "lazy" && len(data) == 0 {
+			return "" // a lazy packet never calls a decoder on empty data (C03 excludes the empty input)
+		}
 		renders, end, link, trunc := chain(first, data)
 		same := len(renders) == len(o.renders) && end == o.end && link == o.link
 		for i := 0; same && i < len(renders); i++ {
